@@ -1278,8 +1278,14 @@ class RT:
                 return SymStr.lift(cont).contains(item)
             raise TypeError("'in <string>' requires string as left operand")
         if isinstance(cont, (dict, list, tuple, set, frozenset)) or type(cont).__name__ in ('dict_keys', 'dict_values'):
-            if is_sym(item) or any(is_sym(k) for k in cont):
-                return bor(*[k == item for k in cont])
+            def symbolic(x):
+                return is_sym(x) or (type(x) is tuple and any(is_sym(y) for y in x))
+            if symbolic(item) or any(symbolic(k) for k in cont):
+                def eq(a, b):
+                    if type(a) is tuple and type(b) is tuple:
+                        return band(len(a) == len(b), *[eq(x, y) for x, y in zip(a, b)]) if len(a) == len(b) else False
+                    return a == b
+                return bor(*[eq(k, item) for k in cont])
         return item in cont
 
     @staticmethod
@@ -1290,10 +1296,12 @@ class RT:
     @staticmethod
     def _key(d, k):
         """find the key of dict d that equals k (forks per candidate)"""
-        if is_sym(k) or any(is_sym(x) for x in d):
+        def symbolic(x):
+            return is_sym(x) or (type(x) is tuple and any(is_sym(y) for y in x))
+        if symbolic(k) or any(symbolic(x) for x in d):
             for kk in d:
                 if type(kk) is tuple or type(k) is tuple:
-                    if kk == k:
+                    if type(kk) is tuple and type(k) is tuple and len(kk) == len(k) and band(*[a == b for a, b in zip(kk, k)]):
                         return kk, True
                     continue
                 if kk == k:   # forks when symbolic
